@@ -20,7 +20,7 @@
 (*          sibling / to the other TLD, alias loops of length 1, 2 and 3     *)
 (*          (the last across three zones), or nothing;                       *)
 (*   hostile server and what it adds to every response, in which section.    *)
-EXTENDS RecursorOps
+EXTENDS RecursorOps, TLC
 
 T1 == <<"t1">>
 T2 == <<"t2">>
@@ -42,6 +42,21 @@ LNs(lmode) == CASE lmode \in {"sib", "sib-noglue"} -> H("nl", M1) [] lmode = "ou
 MNs(mmode) == CASE mmode = "sib-noglue" -> H("nm", L1) [] mmode = "out" -> H("nm", L2) [] OTHER -> H("ns", M1)
 LAddr(lmode) == CASE lmode = "lame" -> "a8" [] lmode = "self" -> "a2" [] OTHER -> "a4"
 
+\* alias trees: every response of l.t1's server about a node carries its alias in the answer section and
+\* f - 1 further aliases (in-zone owners) in the additional / authority section, each to a fresh node,
+\* d levels deep, addresses at the leaves
+RECURSIVE Lab(_, _)
+Lab(pre, p) == IF p = <<>> THEN pre ELSE Lab(pre \o ToString(Head(p)), Tail(p))
+Paths(f, d) == UNION {[1..n -> 1..f] : n \in 0..d}
+Node(p) == IF p = <<>> THEN H("w", L1) ELSE H(Lab("c", p), L1)
+Extra(p, k) == H(Lab("e", Append(p, k)), L1)
+TreeRecs(f, d) ==
+    {CN(Node(p), Node(Append(p, 1))) : p \in {x \in Paths(f, d) : Len(x) < d}}
+    \cup {A(Node(p), "h1") : p \in {x \in Paths(f, d) : Len(x) = d}}
+TreeInj(f, d) ==
+    UNION {{[ip |-> "a4", sec |-> IF k % 2 = 0 THEN "ad" ELSE "ns", when |-> "A", qn |-> Node(p),
+             r |-> CN(Extra(p, k), Node(Append(p, k)))] : k \in 2..f} : p \in {x \in Paths(f, d) : Len(x) < d}}
+
 Target(tmode) ==
     CASE tmode = "a"         -> {A(H("w", L1), "h1")}
       [] tmode = "cname-in"  -> {CN(H("w", L1), H("x", L1)), A(H("x", L1), "h1")}
@@ -50,6 +65,9 @@ Target(tmode) ==
       [] tmode = "loop1"     -> {CN(H("w", L1), H("w", L1))}
       [] tmode = "loop2"     -> {CN(H("w", L1), H("x", L1)), CN(H("x", L1), H("w", L1))}
       [] tmode = "loop3"     -> {CN(H("w", L1), H("w", M1))}
+      [] tmode = "tree22"    -> TreeRecs(2, 2)
+      [] tmode = "tree23"    -> TreeRecs(2, 3)
+      [] tmode = "tree34"    -> TreeRecs(3, 4)
       [] OTHER               -> {}
 
 Zones(lmode, mmode, tmode) ==
@@ -78,9 +96,34 @@ Zones(lmode, mmode, tmode) ==
         Z(M1, {"a5"}, {"a5"}, m1recs, {}),
         Z(L2, {"a6"}, {"a6"}, l2recs, {})}
 
-Net(lmode, mmode, tmode, inj, denyS, denyA) ==
-    [zones |-> Zones(lmode, mmode, tmode), roots |-> {"a1"}, inj |-> inj, denyS |-> denyS, denyA |-> denyA,
-     tag |-> <<lmode, mmode, tmode>>]
+(* Concretisations of the address strings.  "v4": a<i> = 11.0.0.<i>, h<i> = 11.1.0.<i>.  "v6": the      *)
+(* server of l.t1 sits on the IPv6 loopback ::1, the one of m.t1 on the IPv4-compatible ::10.0.0.5, the *)
+(* one of l.t2 on the IPv4-mapped ::ffff:10.0.0.6; host h1 is the unspecified address ::, host h3 the   *)
+(* IPv4-mapped ::ffff:10.0.0.3 -- the addresses on which a filter may be got wrong.                     *)
+AddrUniverse == {"a1", "a2", "a3", "a4", "a5", "a6", "a8", "a9", "h1", "h2", "h3"}
+Z0(n) == [i \in 1..n |-> 0]
+Num(a) == CASE a = "a1" -> 1 [] a = "a2" -> 2 [] a = "a3" -> 3 [] a = "a4" -> 4 [] a = "a5" -> 5 [] a = "a6" -> 6
+            [] a = "a8" -> 8 [] a = "a9" -> 9 [] a = "h1" -> 1 [] a = "h2" -> 2 [] OTHER -> 3
+Plain(a) == IF a \in {"h1", "h2", "h3"} THEN V4(11, 1, 0, Num(a)) ELSE V4(11, 0, 0, Num(a))
+Conc(cv) ==
+    [a \in AddrUniverse |->
+        IF cv = "v4" THEN Plain(a)
+        ELSE CASE a = "a4" -> V6(Z0(15) \o <<1>>)
+               [] a = "a5" -> V6(Z0(12) \o <<10, 0, 0, 5>>)
+               [] a = "a6" -> V6(Z0(10) \o <<255, 255, 10, 0, 0, 6>>)
+               [] a = "h1" -> V6(Z0(16))
+               [] a = "h3" -> V6(Z0(10) \o <<255, 255, 10, 0, 0, 3>>)
+               [] OTHER -> Plain(a)]
+\* address records get the type of their concrete address
+Typed(conc, r) == IF r.t = "A" /\ conc[r.d[1]].v = 6 THEN [r EXCEPT !.t = "AAAA"] ELSE r
+
+Net(lmode, mmode, tmode, inj, denyS, denyA, cv) ==
+    LET conc == Conc(cv) IN
+    [zones |-> {[z EXCEPT !.recs = {Typed(conc, r) : r \in z.recs}] : z \in Zones(lmode, mmode, tmode)},
+     roots |-> {"a1"}, inj |-> {[x EXCEPT !.r = Typed(conc, x.r)] : x \in inj},
+     conc |-> conc, denyS |-> denyS, denyA |-> denyA,
+     qt |-> IF conc["h1"].v = 6 THEN "AAAA" ELSE "A",
+     tag |-> <<lmode, mmode, tmode, cv>>]
 
 \* hostile additions: all out of bailiwick for the server that sends them
 Evil == "a9"
@@ -97,18 +140,39 @@ Payloads(ip, lmode, mmode) ==
                                                    ELSE IF ip = "a5" THEN {A(n, Evil) : n \in {x \in {LNs(lmode), MNs(mmode)} : InZone(x, M1)}}
                                                    ELSE {A(n, Evil) : n \in {x \in {LNs(lmode), MNs(mmode)} : InZone(x, L2)}})}
 InjBy(ip, lmode, mmode) ==
-    {{[ip |-> ip, sec |-> sec, when |-> w, r |-> r] : r \in p} :
+    {{[ip |-> ip, sec |-> sec, when |-> w, qn |-> <<"*">>, r |-> r] : r \in p} :
         sec \in {"an", "ns", "ad"}, w \in {"any", "A"}, p \in {x \in Payloads(ip, lmode, mmode) : x # {}}}
 Injections(lmode, mmode) == {{}} \cup UNION {InjBy(ip, lmode, mmode) : ip \in {"a2", "a4", "a5", "a6"}}
 
-\* parameter tuples <<lmode, mmode, tmode, inj, denyS, denyA>> and the internet each stands for
-NetOfParams(p) == Net(p[1], p[2], p[3], p[4], p[5], p[6])
+\* filters (AccessOps access control sets) over the "v4" concretisation: single addresses, and a denied
+\* network with an allowed network nested inside it
+One(a) == [allow |-> {}, deny |-> {Pfx(Plain(a), 32)}]
+ServerFilters == {NoFilter, One("a4"), One("a5"), One("a6"),
+                  [allow |-> {Pfx(V4(11, 0, 0, 0), 30)}, deny |-> {Pfx(V4(11, 0, 0, 0), 29)}]}     \* a1-a3 allowed, a4-a6 denied
+AnswerFilters == {NoFilter, One("h1"), One("h3"),
+                  [allow |-> {Pfx(V4(11, 1, 0, 2), 31)}, deny |-> {Pfx(V4(11, 1, 0, 0), 24)}]}     \* h2, h3 allowed, h1 denied
+\* ... and over the "v6" concretisation: the loopback / unspecified addresses of both families (without
+\* 0.0.0.0/8), and an IPv4 network that must catch the IPv4-mapped form and nothing else
+Loop6 == [allow |-> {}, deny |-> {Pfx(V4(127, 0, 0, 0), 8), Pfx(V6(Z0(15) \o <<1>>), 128), Pfx(V6(Z0(16)), 128)}]
+Ten   == [allow |-> {}, deny |-> {Pfx(V4(10, 0, 0, 0), 8)}]
+
+TreeModes == {"tree22", "tree23", "tree34"}
+TreeF(tm) == IF tm = "tree34" THEN 3 ELSE 2
+TreeD(tm) == CASE tm = "tree22" -> 2 [] tm = "tree23" -> 3 [] OTHER -> 4
+
+\* parameter records and the internet each stands for
+P(lm, mm, tm, inj, fs, fa, cv) == [lm |-> lm, mm |-> mm, tm |-> tm, inj |-> inj, fs |-> fs, fa |-> fa, cv |-> cv]
+NetOfParams(p) == Net(p.lm, p.mm, p.tm, p.inj, p.fs, p.fa, p.cv)
 \* hostile servers, no filters
 HostileParams(LM, MM, TM) ==
-    UNION {{<<lm, mm, tm, inj, {}, {}>> : tm \in TM, inj \in Injections(lm, mm)} : lm \in LM, mm \in MM}
+    UNION {{P(lm, mm, tm, inj, NoFilter, NoFilter, "v4") : tm \in TM, inj \in Injections(lm, mm)} : lm \in LM, mm \in MM}
 \* filters, honest servers
 FilterParams(LM, MM, TM) ==
-    {<<lm, mm, tm, {}, ds, da>> : lm \in LM, mm \in MM, tm \in TM, ds \in {{}, {"a4"}, {"a5"}, {"a6"}}, da \in {{}, {"h1"}, {"h3"}}}
+    {P(lm, mm, tm, {}, fs, fa, "v4") : lm \in LM, mm \in MM, tm \in TM, fs \in ServerFilters, fa \in AnswerFilters}
+V6Params ==
+    {P(lm, mm, tm, {}, fs, fa, "v6") : lm \in {"in", "sib", "out"}, mm \in {"in", "out"}, tm \in {"a", "cname-out"},
+                                       fs \in {NoFilter, Loop6, Ten}, fa \in {NoFilter, Loop6, Ten}}
+TreeParams(TM) == {P("in", "in", tm, TreeInj(TreeF(tm), TreeD(tm)), NoFilter, NoFilter, "v4") : tm \in TM}
 
-TheQuestion == {[qn |-> H("w", L1), qt |-> "A"]}
+TheQuestions == {[qn |-> H("w", L1), qt |-> "A"], [qn |-> H("w", L1), qt |-> "AAAA"]}
 =============================================================================
